@@ -291,6 +291,33 @@ def rule_rank(ctx):
                         lo, up = sl.elts[1].lower, sl.elts[1].upper
                         if lo is not None or up is None or ast.unparse(up) != "len(self.curves)":
                             problems.append("truncation keeps columns `%s`, not the first len(self.curves)" % unparse(sl.elts[1]))
+    # the column count that drives the extension of the curve list is taken from the array the columns are then read from,
+    # not from its un-truncated precursor (a local that went stale when one reassigned variable was split in two)
+    col_src = set()
+    for x in walk_shallow(fi.node):
+        if isinstance(x, ast.Assign) and isinstance(x.targets[0], ast.Attribute) and x.targets[0].attr == "data" \
+                and isinstance(x.value, ast.Subscript) and isinstance(x.value.value, ast.Name) and isinstance(x.value.slice, ast.Tuple):
+            col_src.add(x.value.value.id)
+    precursors = {}
+    for s in walk_shallow(fi.node):
+        if isinstance(s, ast.Assign) and isinstance(s.targets[0], ast.Name) and s.targets[0].id in col_src \
+                and isinstance(s.value, ast.Subscript) and isinstance(s.value.value, ast.Name) and s.value.value.id not in col_src \
+                and isinstance(s.value.slice, ast.Tuple) and len(s.value.slice.elts) == 2 and isinstance(s.value.slice.elts[1], ast.Slice) \
+                and s.value.slice.elts[1].upper is not None:
+            precursors[s.value.value.id] = s
+    for x in walk_shallow(fi.node):
+        if isinstance(x, ast.Subscript) and isinstance(x.slice, ast.Constant) and x.slice.value == 1 and isinstance(x.value, ast.Attribute) \
+                and x.value.attr == "shape" and isinstance(x.value.value, ast.Name) and x.value.value.id in precursors:
+            par, in_min = getattr(x, "_parent", None), False
+            while par is not None and not isinstance(par, ast.stmt):
+                if isinstance(par, ast.Call) and isinstance(par.func, ast.Name) and par.func.id == "min":
+                    in_min = True
+                par = getattr(par, "_parent", None)
+            if not in_min:
+                problems.append("`%s` counts the columns of the un-truncated array although the curves are filled from `%s` "
+                                "(`%s`): with truncate=True and more columns than curves the curve list is extended by curves "
+                                "that get no column, and the assignment loop raises IndexError half-way"
+                                % (unparse(x), sorted(col_src)[0], unparse(precursors[x.value.value.id])))
     ctx.check(not problems, "LF.RANK", LF + ".set_data#rank", fi, fi.node,
               "every re-slicing of the data array in set_data keeps rank 2 (truncate keeps the first len(curves) columns)",
               "; ".join(dict.fromkeys(problems)))
